@@ -468,6 +468,20 @@ def _correspond_case(ck, op, call, sp, ans, stats):
                     d.append(f"model: returns {json.dumps(exp)[:200]}; real raised {sp['raised']}: {sp.get('msg', '')[:120]}")
                 else:
                     _cmp("output Var types", [[k, t] for k, t in zip(out_keys(cls, call), sp["types"])], exp, d)
+    # the supplements that run the standard routine first: their own rules on top of its answer
+    if "loop_own" in ans and sp["raised"] is None:
+        stats["loop_own_compared"] += 1
+        _cmp("Loop supplement (carried outputs: common type of body result and declared argument; other outputs: the standard routine's)",
+             [[k, t] for k, t in zip(out_keys(cls, call), sp["types"])], ans["loop_own"], d)
+    if "compress_own" in ans:
+        stats["compress_own_compared"] += 1
+        if ans["compress_own"] == "inference":
+            if sp["raised"] != "InferenceError":
+                d.append(f"model compressOwn: InferenceError; real: {sp['raised'] or 'returned ' + json.dumps(sp['types'])}")
+        elif sp["raised"] is not None:
+            d.append(f"model compressOwn: {json.dumps(ans['compress_own'])}; real raised {sp['raised']}: {sp.get('msg', '')[:120]}")
+        else:
+            _cmp("Compress supplement", sp["types"], [ans["compress_own"]], d)
     # value propagation: types as `construct`, a value only on a typed output
     if "vp" in ans and ans["vp"] != "error" and sp["raised"] is None and sp.get("has_value") is not None and not patched:
         stats["value_prop_compared"] += 1
